@@ -1,18 +1,50 @@
 import Afkak.Monitor.C14
 /-!
-# C02 — full-strength statements that are NOT (yet) proved.  Statements, not theorems.
+# C02 — full-strength statements and the environment contract `FaithfulLog`.  Statements, not theorems.
 Each is the acceptance, on every model trace, of the monitor that is run on the implementation's traces.
+`C02_no_gap_no_dup` is proved (`AfkakProps/C02.lean`); `C02_prompt` is NOT (yet) proved.
 -/
 namespace Afkak.Props.Open.C02
 open Afkak.Consumer Afkak.Monitor
 
+/-- consecutive log entries: each message is the log entry following the one before it -/
+def chainOk (log : List Msg) : List Msg → Bool
+  | [] => true
+  | [_] => true
+  | a :: b :: t => (C02.succIn log a.off == some b) && chainOk log (b :: t)
+
+/-- One successful fetch reply `r` to a request at offset `off` is a faithful view of the partition log: the
+    request was at a Kafka offset (a broker answers a negative offset with OffsetOutOfRange, never with
+    messages), the reply carries log entries, consecutive ones, and the first one at or after `off` is the
+    first log entry at or after `off` (a compressed wrapper may deliver some entries below `off` too). -/
+def replyFaithful (log : List Msg) (off : Int) (r : Reply) : Bool :=
+  decide (0 ≤ off) && r.msgs.all (fun m => log.contains m) && chainOk log r.msgs &&
+    (match (r.msgs.filter (fun m => decide (off ≤ m.off))).head? with
+     | none => true
+     | some m => C02.firstFrom log off == some m)
+
 /-- The environment is a faithful view of a partition log: every successful fetch reply for a request at
-    `off` carries consecutive log entries, the first at or after `off` being the first log entry ≥ `off`. -/
+    `off` is `replyFaithful`; and the configuration is one `Consumer.__init__` accepts (`auto_offset_reset` is
+    `None`, `OFFSET_EARLIEST` or `OFFSET_LATEST`: any other value raises ValueError there).
+    (Decidable for every concrete event list: the quantifiers are bounded by the event list and the trace.) -/
 def FaithfulLog (log : List Msg) (cfg : Cfg) (script : List PEntry) (evs : List Ev) : Prop :=
+  (∀ v, cfg.reset = some v → v = Afkak.Consts.offsetEarliest ∨ v = Afkak.Consts.offsetLatest) ∧
   ∀ n k r, evs[n]? = some (.fetchOk k r) →
-    ∀ off mb, .ob (.fetch k off mb) ∈ (run cfg script (evs.take n)).out →
-      (∀ m ∈ r.msgs, m ∈ log) ∧ r.msgs.Pairwise (fun a b => C02.succIn log a.off = some b) ∧
-      (∀ m ∈ (r.msgs.filter (fun m => decide (off ≤ m.off))).head?, C02.firstFrom log off = some m)
+    ∀ off mb, .ob (.fetch k off mb) ∈ (run cfg script (evs.take n)).out → replyFaithful log off r = true
+
+/-- `FaithfulLog` as a computation (what a check of a recorded scenario evaluates); `faithfulB_sound` in
+    `AfkakProofs/Consumer/A_Gap6.lean`: it implies `FaithfulLog`. -/
+def faithfulB (log : List Msg) (cfg : Cfg) (script : List PEntry) (evs : List Ev) : Bool :=
+  (match cfg.reset with
+   | none => true
+   | some v => v == Afkak.Consts.offsetEarliest || v == Afkak.Consts.offsetLatest) &&
+  (List.range evs.length).all fun n =>
+    match evs[n]? with
+    | some (.fetchOk k r) =>
+      (run cfg script (evs.take n)).out.all fun
+        | .ob (.fetch k' off _) => k' != k || replyFaithful log off r
+        | _ => true
+    | _ => true
 
 /-- No gap, no duplicate: against a faithful log the delivered stream is the log from the resolved start,
     as far as it got. -/
